@@ -49,7 +49,7 @@ REFROOTS = ["checkouts", "env", "include", "sandbox", "tools"]
 def plan(tier):
     if tier == "thorough":
         return {"cases": 1500, "timeout": 600, "wall_budget": 1500, "recheck": 4, "nproc": 8}
-    return {"cases": 30, "timeout": 400, "wall_budget": 60, "recheck": 2, "nproc": 8}
+    return {"cases": 60, "timeout": 400, "wall_budget": 60, "recheck": 2, "nproc": 8}
 
 def _pert(rng):
     return {"hashseed": rng.randrange(1, 4000), "perm": rng.randrange(1, 1 << 30), "loc": rng.choice(["a", "deep/er/b", "x y"]),
